@@ -1668,14 +1668,13 @@ func planC17(tier string, seed int64) (*Plan, error) {
 		nwin = 0 // every position
 	}
 	jobs = append(jobs, windowJobs("H_c17_tables", docs, seed, nwin, 1, []string{tb, tbX, all})...)
-	if thorough {
-		jobs = append(jobs, windowJobs("H_c17_tables", docs, seed, 300, 2, []string{tb})...)
-	}
+	// (two-byte windows were dropped from the thorough tier: two free bytes can spell a list marker or another
+	// container in front of a row, and the oracle's way of finding the header and delimiter lines does not model that)
 	p.Jobs = jobs
 	p.Bounds = map[string]interface{}{
 		"T(table)":  "documents of 2-4 lines (header, delimiter, body rows; optionally a paragraph line first; optionally inside '> ' or '- '), every line a symbolic string of the listed length over the listed alphabet: (3,3),(2,3),(3,2),(1,1) over {|,-,:,space,a}; (4,4),(5,3),(3,3,3),(3,3,2,2),(2,3,4),(2,3,3,2) over {|,-,a}; (3,4) over {|,-,:}; header/body of 3-4 bytes over {|,a,\\,`} with concrete delimiter rows '-|-', '|:-|-:|', '-', ':-:|-|-' (escaped pipes, pipes in code spans); (3,3,2) over {|,-,a} in a quote and in a list item; three of the cases again after two concrete documents (a table whose delimiter row occupies the same byte range) were converted on the same instance",
 		"free-form": fmt.Sprintf("S(2) all extensions; S(%d,{a,|,-,LF}) and S(%d,{|,-,:,LF,space})", la, la),
-		"W(C_tbl,1)": fmt.Sprintf("%d seeded (document of extension/_test/table.txt, offset) pairs with one symbolic byte (thorough: every offset, and 300 two-byte windows)", nwin),
+		"W(C_tbl,1)": fmt.Sprintf("%d seeded (document of extension/_test/table.txt, offset) pairs with one symbolic byte (thorough: every offset); window bytes range over all values except '>', VT and FF (they move the lines the oracle reads as header and delimiter row)", nwin),
 		"oracle":    "tree: one TableHeader first, every row has len(Alignments) cells, each cell carries its column's alignment; header and delimiter row are split independently by the harness (rows without backslash/backtick) and must have equal cell counts, delimiter colons must match the alignments; output: one thead with one row, every tr has as many th/td as columns, each cell's align/style attribute is its column's",
 		"outside":   "longer rows; a final empty cell directly before the closing pipe is read as goldmark reads it (not counted)",
 	}
